@@ -38,6 +38,18 @@ CHECKS = {
  "C19": ("reference-model monitor: hover signatures / doc comments and inlay hints compared with declarations, comment layout and argument bindings known by construction",
          "Exploration: hover on every declaration and every correctly resolving use (kind keyword, name, declared type; exactly the adjacent // lines, with blank-line, block-comment and trailing-comment counter-cases); inlay hints over the full file (equality) and over random, cutting and empty sub-ranges (soundness + inside-range).",
          "hover is only demanded where go-to-definition itself is right (C05 owns resolution); hints on top-level let items are not demanded either way", "5/C19"),
+ "C03": ("panic / stack-overflow / CPU-budget monitor over the full query sweep on typed-through workspace states (worker processes on 2 MiB stacks, crashes attributed through a shared-memory slot)",
+         "Exploration: generated multi-file programs, their token prefixes, character-cut prefixes and single-token edits in root and included file, 28 semantic stress patterns with all prefixes, the 39 corpus files; on each state every query kind at every offset (all char boundaries for small files) incl. empty and arbitrary inlay-hint ranges. Each query individually guarded; hard crashes classified by the supervisor.",
+         "include cycles belong to C16; offsets beyond the text and files outside the workspace are not requested", "5/C03"),
+ "C06": ("invariant monitor relating go-to-definition / find-references answers to identifier tokens of a fresh parse, on arbitrary (also malformed) workspaces",
+         "Exploration over the same state space as C03: at every swept offset where go-to-definition answers, the four coherence conditions of the statement are evaluated (quick: ~1.2e6 answering offsets, ~1.4e6 reference round trips).",
+         "identifier tokens are taken from syntax::parse of the named file's current text", "5/C06"),
+ "C07": ("differential monitor: long-lived AnalysisHost after every step of an edit / root-switch history vs a from-scratch host on the final state, full query sweep",
+         "Exploration over histories: random 8-12 step histories over generated 2-4 file workspaces with include-changing, shifting, breaking and replacing edits, root switches and file removals, compared after every step; all two-step histories over a 6-operation pool per unit.",
+         "every text change is paired with set_root_file as the server does; results normalised only by FileId->path and sorting of hash-ordered collections", "5/C07"),
+ "C17": ("invariant monitor on every range of every query result against current file texts and the workspace key set",
+         "Exploration over the same state space as C03 with non-ASCII text glued to identifiers and CRLF: every range of every result is checked for workspace membership, bounds and UTF-8 boundaries (quick: ~4e6 ranges).",
+         "the workspace is the key set of diagnostics()", "5/C17"),
 }
 NOT_YET = "check under construction in this session; not claimed yet"
 
